@@ -245,11 +245,12 @@ pub fn facts_sexp(c: &Case) -> String {
     let mut f64s = String::from("(f64");
     let mut reals: BTreeSet<u64> = BTreeSet::new();
     reals.insert(0x7ff8000000000000);
+    let ship = crate::util::ship_facts(&format!("{}\u{1}{}", c.defs, c.query));
     if want_f64 {
         for t in &texts {
             match f64::from_str(t) {
-                Ok(f) => { f64s.push_str(&format!(" ({} {})", hexs(t), f.to_bits())); collect_reals(&Value::Float(Float(f)), &mut reals); }
-                Err(_) => f64s.push_str(&format!(" ({} none)", hexs(t))),
+                Ok(f) => { if ship { f64s.push_str(&format!(" ({} {})", hexs(t), f.to_bits())); } collect_reals(&Value::Float(Float(f)), &mut reals); }
+                Err(_) => if ship { f64s.push_str(&format!(" ({} none)", hexs(t))) },
             }
         }
     }
